@@ -38,6 +38,13 @@ def program_diff(param):
     fdp = apis.client_api()[0].f
     rpcs = {m.name for m in fdp.service[0].method}
     kinds = (["grpc", "grpc-async"] if "grpc" in param else []) + (["rest"] if "rest" in param else [])
+    # the library package recorded in the metadata is the package the file itself is emitted in (naming overrides included)
+    where = os.path.dirname(g.find("gapic_metadata.json")).replace("/", ".")
+    if md.get("libraryPackage") == where and md.get("protoPackage") == fdp.package:
+        oks.append(f"{param}:library-package")
+    else:
+        bad[f"{param}:library-package"] = (f"libraryPackage {md.get('libraryPackage')!r} / protoPackage {md.get('protoPackage')!r}: "
+                                           f"the file is emitted in package {where!r} for proto package {fdp.package!r}")
     svc = md["services"].get("Library", {})
     if sorted(svc.get("clients", {})) != sorted(kinds):
         bad["client-kinds"] = f"clients {sorted(svc.get('clients', {}))} != {sorted(kinds)} for {param}"
@@ -86,7 +93,8 @@ def program_diff(param):
 def body(chk: core.Check):
     chk.engines.add("CH (CrossHair 0.0.110 + z3), selector-symbolic, realised-untraced")
     chk.bound("services_and_rpcs", "Alpha{GetThing, Import, CreateChannel}, Beta{List}; transports grpc / rest / grpc+rest; "
-              "internal mode with every non-empty allow-list subset")
+              "internal mode with every non-empty allow-list subset; "
+              "4 naming settings (default, python-gapic-namespace, python-gapic-name, both)")
     chk.bound("legacy_fields", "5 fields with non-monotonic numbers + 1 reserved-word field, all required-bit patterns")
     chk.stubs.append(gen.PANDOC_STUB_NOTE)
     chk.outside += ["import of the emitted package (introspection is by AST)", "add-iam-methods rows of the fix-up table"]
@@ -105,7 +113,9 @@ def body(chk: core.Check):
     c2 = ch.run(H, ["metadata"], timeout=300, env={"VERIF_CANARY": "rest-async"}, jobs=1)[0]
     chk.canary("a grpc-async client listed for a rest-only library (in-memory mutant)", c2["status"] == "refuted", c2.get("call", c2["status"]))
     chk.twin("metadata/legacy_order: all branches are covered by the confirmed path sets", True)
-    for param in ("transport=grpc", "transport=rest", "transport=grpc+rest"):
+    for param in ("transport=grpc", "transport=rest", "transport=grpc+rest",
+                  "transport=grpc+rest,python-gapic-namespace=acme.cloud,python-gapic-name=bookshelf",
+                  "transport=grpc,python-gapic-name=shelves"):
         oks, bad, g = program_diff(param)
         chk.programs += 1
         for k in oks:
